@@ -1,5 +1,5 @@
 """C05 — volume container: records tile the file, compression flag, header exact."""
-from nx import sym, layout, loops, listalg
+from nx import bytepred, sym, layout, loops, listalg
 from nx.spec import *
 from rules import common
 
@@ -98,20 +98,46 @@ def run(chk, tier):
     d = call(REC + "data", slf)
     ev = sym.Evaluator(prog, opaque_local=[REC + "data"])
     got, fn = eval_or_blind(chk, ev, "VN", REC + "compressed")
+    is_bz = lambda w: w.len >= 6 and w.bytes[4] == 0x42 and w.bytes[5] == 0x5A
+    ws = bytepred.worlds(8, {4: [0x41, 0x42, 0x5A], 5: [0x41, 0x42, 0x5A]})
     if got is not None:
-        m = magic_test(got, d)
-        chk.ob("VN", REC + "compressed", m == (4, 6, 'b"BZ"'), "compressed <=> the two bytes after the 4-byte size prefix are \"BZ\" (length-guarded)" if m == (4, 6, 'b"BZ"') else
-               "compression test is not `data[4..6] == \"BZ\"`: %s" % (m if m else show(got)[:300]), fn.where(), key="magic")
-    ev = sym.Evaluator(prog, opaque_local=[REC + "data", REC + "compressed", "nexrad_decode::messages::decode_messages"])
-    comp = call(REC + "compressed", slf)
+        try:
+            bad = [(w, r) for w, r in ((w, bytepred.evalw(got, d, w)) for w in ws) if r is not is_bz(w)]
+            m = None if bad else True
+            detail = "on %r it is %s" % (bad[0][0], show(bad[0][1])[:120] if isinstance(bad[0][1], tuple) else bad[0][1]) if bad else ""
+        except bytepred.Unknown as e:
+            m, detail = None, "undecided: %s in %s" % (e, show(got)[:200])
+        except bytepred.Undefined:
+            m, detail = None, "indexes past the end of the data without a length test"
+        chk.ob("VN", REC + "compressed", m is True, "compressed <=> the two bytes after the 4-byte size prefix are \"BZ\" (length-guarded): equal as functions on all %d length x byte classes" % len(ws) if m else
+               "compression test is not `data[4..6] == \"BZ\"`: %s" % detail, fn.where(), key="magic")
+    # decompress, with compressed() as the code has it
+    ev = sym.Evaluator(prog, opaque_local=[REC + "data", "nexrad_decode::messages::decode_messages"])
     got, fn = eval_or_blind(chk, ev, "VN", REC + "decompress")
     if got is not None:
-        src = fld(call("core::slice::<impl [T]>::split_at", d, C(4, "usize")), "1")
-        rd = call("std::io::Read::read_to_end", call("bzip2::read::BzDecoder::<R>::new", src), call("alloc::vec::Vec::<T>::new"))
-        out = ("mutated", "std::io::Read::read_to_end", 1, (call("bzip2::read::BzDecoder::<R>::new", src), call("alloc::vec::Vec::<T>::new")))
-        want = ite(comp, sym.res_match(rd, lambda x: ok(adt(V + "record::Record", "Record", (("0", adt(V + "record::RecordData", "Owned", (("0", out),))),))), lambda e: err(("conv", e))),
-                   err(adt(ERR, "UncompressedDataError", ())))
-        expect(chk, "VN", REC + "decompress", got, want, fn.where(), "Err(UncompressedDataError) unless compressed; otherwise the bzip2 stream after the 4-byte prefix inflated into a new owned record")
+        def want_for(w):
+            if not is_bz(w):
+                return err(adt(ERR, "UncompressedDataError", ()))
+            src = ("bytes", w.bytes[4:])
+            rd = call("std::io::Read::read_to_end", call("bzip2::read::BzDecoder::<R>::new", src), call("alloc::vec::Vec::<T>::new"))
+            out = ("mutated", "std::io::Read::read_to_end", 1, (call("bzip2::read::BzDecoder::<R>::new", src), call("alloc::vec::Vec::<T>::new")))
+            return sym.res_match(rd, lambda x: ok(adt(V + "record::Record", "Record", (("0", adt(V + "record::RecordData", "Owned", (("0", out),))),))), lambda e: err(("conv", e)))
+        bad, und = None, None
+        for w in ws:
+            try:
+                r = bytepred.evalw(got, d, w)
+            except (bytepred.Unknown, bytepred.Undefined) as e:
+                und = "%s on %r" % (type(e).__name__, w)
+                break
+            if not (isinstance(r, tuple) and sym.sem_eq(r, want_for(w))):
+                bad = (w, r)
+                break
+        okk = bad is None and und is None
+        chk.ob("VN", REC + "decompress", okk, "Err(UncompressedDataError) unless compressed; otherwise the bzip2 stream after the 4-byte prefix inflated into a new owned record" if okk else
+               "decompress differs from the specification %s" % (und or ("on %r: %s" % (bad[0], show(bad[1])[:300]))), fn.where(),
+               key="Err(UncompressedDataError) unless compressed; otherwise the bzip2 stream after the 4-byte prefix inflated into a new owned record")
+    ev = sym.Evaluator(prog, opaque_local=[REC + "data", REC + "compressed", "nexrad_decode::messages::decode_messages"])
+    comp = call(REC + "compressed", slf)
     got, fn = eval_or_blind(chk, ev, "VN", REC + "messages")
     if got is not None:
         dm = call("nexrad_decode::messages::decode_messages", call("std::io::cursor::Cursor::<T>::new", d))
@@ -137,22 +163,31 @@ def run(chk, tier):
     for acc, field in (("tape_filename", "tape_filename"), ("extension_number", "extension_number"), ("icao_of_radar", "icao_of_radar")):
         got, fn = eval_or_blind(chk, ev0, "R-WIRE", HDR + "::" + acc)
         if got is not None:
-            c = call("alloc::string::String::from_utf8", F(field))
+            c = call("core::str::converts::from_utf8", F(field))
             expect(chk, "R-WIRE", HDR + "::" + acc, got, sym.res_match(c, lambda x: some(x), lambda e: NONE), fn.where(), "the field's bytes as UTF-8 text")
     # chunk sniffing uses the same offsets
     got, fn = eval_or_blind(chk, ev0, "VN", CHUNK_NEW, [P("data")])
     if got is not None:
         dd = P("data")
-        ar2 = call("core::slice::<impl [T]>::starts_with", dd, ("const", 'b"AR2"', "&[u8; 3]"))
-        starts = [leaf for conds, leaf in loops.paths(got) if any(len(c) == 2 and c[0] == ar2 and c[1] is True for c in conds)]
-        okk = starts == [ok(adt("nexrad_data::aws::realtime::chunk::Chunk", "Start", (("0", adt(V + "file::File", "File", (("0", dd),))),)))]
-        chk.ob("VN", CHUNK_NEW, okk, "data starting with \"AR2\" is a start chunk wrapping the whole volume file", fn.where(), key="chunk-start")
-        rest = sym.rebuild(got, {ar2: FALSE})
+        start = ok(adt("nexrad_data::aws::realtime::chunk::Chunk", "Start", (("0", adt(V + "file::File", "File", (("0", dd),))),)))
         rec = ok(adt("nexrad_data::aws::realtime::chunk::Chunk", "IntermediateOrEnd", (("0", adt(V + "record::Record", "Record", (("0", adt(V + "record::RecordData", "Owned", (("0", dd),))),))),)))
-        bad = err(adt(ERR, "AWS", (("0", adt("nexrad_data::result::aws::AWSError", "UnrecognizedChunkFormat", ())),)))
-        as_bool = sym.map_leaves(rest, lambda x: TRUE if x == rec else (FALSE if x == bad else ("other", x)))
-        m = magic_test(as_bool, dd)
-        chk.ob("VN", CHUNK_NEW, m == (4, 6, 'b"BZ"'), "otherwise a record chunk exactly when bytes 4..6 are \"BZ\", else UnrecognizedChunkFormat (%s)" % (m,), fn.where(), key="chunk-record")
+        bad_ = err(adt(ERR, "AWS", (("0", adt("nexrad_data::result::aws::AWSError", "UnrecognizedChunkFormat", ())),)))
+        wsc = bytepred.worlds(8, {0: [0x41, 0x42], 1: [0x52, 0x5A], 2: [0x32, 0x33], 4: [0x41, 0x42, 0x5A], 5: [0x41, 0x42, 0x5A]})
+        is_ar2 = lambda w: w.len >= 3 and w.bytes[:3] == b"AR2"
+        res = {"start": None, "record": None}
+        for w in wsc:
+            try:
+                r = bytepred.evalw(got, dd, w)
+            except (bytepred.Unknown, bytepred.Undefined) as e:
+                res["start"] = res["record"] = "%s on %r" % (type(e).__name__, w)
+                break
+            want = start if is_ar2(w) else (rec if is_bz(w) else bad_)
+            if r != want:
+                res["start" if (is_ar2(w) or r == start) else "record"] = "on %r: %s" % (w, show(r)[:200] if isinstance(r, tuple) else r)
+        chk.ob("VN", CHUNK_NEW, res["start"] is None, "data starting with \"AR2\" is a start chunk wrapping the whole volume file" if res["start"] is None else
+               "start-chunk sniffing differs: %s" % res["start"], fn.where(), key="chunk-start")
+        chk.ob("VN", CHUNK_NEW, res["record"] is None, "otherwise a record chunk exactly when bytes 4..6 are \"BZ\", else UnrecognizedChunkFormat" if res["record"] is None else
+               "record-chunk sniffing differs: %s" % res["record"], fn.where(), key="chunk-record")
 
 
 def tiling(chk, prog):
